@@ -186,6 +186,8 @@ fn gimli_attr<'a>(dwarf: &gimli::Dwarf<Slice<'a>>, unit: &gimli::Unit<Slice<'a>>
         AV::DebugInfoRef(o) => GVal::Ref(None, Some(o.0 as u64)),
         AV::DebugTypesRef(sig) => GVal::Sig(sig.0),
         AV::Block(b) => GVal::Bytes(b.slice().to_vec()),
+        // the corpus is little-endian: the 16 bytes as they are in the section
+        AV::Data16(x) => GVal::Bytes(x.to_le_bytes().to_vec()),
         AV::Exprloc(e) => GVal::Expr(e.0.slice().to_vec()),
         AV::DebugRngListsIndex(i) => GVal::ListIdx(i.0 as u64, dwarf.attr_ranges_offset(unit, raw.clone()).map(|o| o.map(|o| o.0 as u64)).map_err(|e| format!("{e:?}"))),
         AV::DebugLocListsIndex(i) => GVal::ListIdx(i.0 as u64, dwarf.attr_locations_offset(unit, raw.clone()).map(|o| o.map(|o| o.0 as u64)).map_err(|e| format!("{e:?}"))),
@@ -410,6 +412,18 @@ fn judge(a: &DAttr, g: &GAttr, u: &DUnit, skel: Option<&cb::SkelFacts>, debug_ad
                 Some(n) if n == op => Ok("expr.first_op"),
                 Some(n) => mis("corpus.attr.expr.first_op", op, n),
                 None => Ok("unjudged.expr_op_name"),
+            }
+        }
+        "DW_FORM_data16" => {
+            // 32 hexadecimal digits, bytes in section order
+            let h: String = t.chars().filter(|c| !c.is_whitespace()).collect();
+            if h.len() != 32 || !h.chars().all(|c| c.is_ascii_hexdigit()) {
+                return Ok("unjudged.data16_text");
+            }
+            let exp: Vec<u8> = (0..16).map(|i| u8::from_str_radix(&h[2 * i..2 * i + 2], 16).unwrap_or(0)).collect();
+            match &g.raw {
+                GVal::Bytes(b) if *b == exp => Ok("data16"),
+                o => mis("corpus.attr.data16", exp, o),
             }
         }
         _ => Ok("unjudged.form"),
